@@ -1091,7 +1091,7 @@ void Preprocessor::dump(std::ostream &out) const
         out << "  <macro-usage>" << std::endl;
         for (const simplecpp::MacroUsage &macroUsage: mMacroUsage) {
             out << "    <macro"
-                << " name=\"" << macroUsage.macroName << "\""
+                << " name=\"" << ErrorLogger::toxml(macroUsage.macroName) << "\""
                 << " file=\"" << ErrorLogger::toxml(mTokens.file(macroUsage.macroLocation)) << "\""
                 << " line=\"" << macroUsage.macroLocation.line << "\""
                 << " column=\"" << macroUsage.macroLocation.col << "\""
